@@ -40,6 +40,7 @@ def kind? : String → Option Kind
   | "mal" => some .maliciousDelayed
   | "dd" => some .doubleDebit
   | "fr" => some .feeOnReceive
+  | "pg" => some .programmable
   | _ => none
 
 def ownerStr : Owner → String
@@ -113,7 +114,7 @@ def step (st : St) (line : String) : St × String :=
     | some k, some init =>
       let w := { st.w with code := fun a => if a = c then true else st.w.code a }
       let w := w.setTok c { kind := k, bal := fun a => if a = deployer then init else 0, supply := init,
-                            admin := fun a => a == deployer || k == .doubleDebit || k == .feeOnReceive }
+                            admin := fun a => a == deployer || k == .doubleDebit || k == .feeOnReceive || k == .programmable }
       ({ st with w := w, contracts := addU st.contracts c }, "ok")
     | _, _ => bad
   | ["regerc20", c, d] =>
@@ -149,6 +150,12 @@ def step (st : St) (line : String) : St × String :=
       let okk := !(!b.sendEnabled d || b.blocked t) && (b.send s t d amt).isOk
       ({ st with w := Convert.step B st.w (.bankSend s t d amt) }, if okk then "ok" else "err")
     | _, _ => bad
+  | ["ctl", c, m1, m2, who, xf] =>
+    match m1.toNat?, m2.toNat?, xf.toNat? with
+    | some m1, some m2, some xf =>
+      let t := st.w.tok c
+      ({ st with w := st.w.setTok c { t with readMode := m1, readNext := m2, readWho := if who == "-" then "" else who, xferMode := xf } }, "ok")
+    | _, _, _ => bad
   | ["gov", k, b] =>
     match str? k with
     | some k => ({ st with w := Convert.step B st.w (.setParamByKey k (bit b)) }, "ok")
